@@ -260,9 +260,38 @@ def rule_reject_dominates(ctx, res, f, rows):
               'write is partially applied', f.loc)
 
 
+def rule_fresh_regions(ctx, res):
+    """write_cart_data must reach the section arrays of the game as it is
+    NOW: a memory map cached on the object on first use keeps pointing at
+    section objects that were replaced since (build, from_file and every
+    caller may rebind game.gfx ...)"""
+    from . import memo
+    cls = ctx.model.func(Q).cls
+    hits = 0
+    for q, f in sorted(ctx.model.functions.items()):
+        if f.cls is not cls:
+            continue
+        for (node, attr, reads) in memo.lazy_attribute_caches(f):
+            if any(r in ('gfx', 'gff', 'map', 'sfx', 'music') for r in reads):
+                hits += 1
+                res.violation(
+                    'R-C18-map', f.qual, 'region arrays are looked up on '
+                    'every write, not cached on the game',
+                    'self.{} is filled once from self.{{{}}} and reused: '
+                    'after a section is replaced (game.gfx = other.gfx, as '
+                    'build does) writes land in the old section object and '
+                    'the addressed bytes of the cart do not change'.format(
+                        attr, ', '.join(reads)), f.module.loc(node),
+                    semantic=True)
+    if not hits:
+        res.holds('R-C18-map', cls.qual, 'region arrays are looked up on '
+                  'every write, not cached on the game', '')
+
+
 def run(ctx, res):
     model = ctx.model
     f = model.func(Q)
+    rule_fresh_regions(ctx, res)
     try:
         rows = extract_rows(ctx, f)
     except AnalysisError as e:
